@@ -2,7 +2,7 @@
    Only statements, each closed by [exact]; proofs live in Proofs/.  The table is Gen.GroupsTable,
    regenerated from pkg/scan/range.go on every run. *)
 From Coq Require Import ZArith List.
-From SX Require Import Model.RangeIter Gen.GroupsTable Proofs.RangeIterProofs.
+From SX Require Import Model.RangeIter Model.RangeIterShape Gen.GroupsTable Proofs.RangeIterProofs.
 Import ListNotations.
 Open Scope Z_scope.
 
@@ -45,6 +45,12 @@ Theorem C04_any_generator : forall p g a n fuel,
   exists l, walk_from fuel p g n (g ^ a mod p) = Ok (Complete l) /\ NoDup l /\ (forall x, In x l <-> 1 <= x <= n).
 Proof. exact walk_core. Qed.
 
+(* the statements of newRangeIterator, rangeIterator.Next and rangeIterator.Int in the current sources
+   (Gen/StmtShapes.v, regenerated on every run; local names canonical) are the ones Model/RangeIter.v was
+   written against (Model/RangeIterShape.v) *)
+Theorem C04_shape : shape_ok = true.
+Proof. vm_compute. reflexivity. Qed.
+
 (* non-vacuity: concrete instances *)
 Example C04_ex_small : run cyclic_groups 10 5 7 = Ok (Complete [2; 1; 6; 3; 7; 9; 10; 5; 8; 4]).
 Proof. vm_compute. reflexivity. Qed.
@@ -58,3 +64,4 @@ Print Assumptions C04_permutation.
 Print Assumptions C04_reject.
 Print Assumptions C04_accept.
 Print Assumptions C04_any_generator.
+Print Assumptions C04_shape.
